@@ -373,6 +373,18 @@ def run_case(case: dict) -> CaseResult:
             await sess.cli.disconnect(force=True)
 
         env.loop.sim_at(t0 + t_last, lambda: env.spawn("cleanup", cleanup()))
+        if len(case["ops"]) == 1 and case["ops"][0].get("cancel_at") is not None:
+            # "every finished operation leaves nothing subscribed" -- judged right after the caller's cancellation took
+            # effect, not only at the end of the history (by then a detached leftover may have timed out by itself)
+            o1 = case["ops"][0]
+
+            def after_cancel():
+                r = env.results.get(o1["id"])
+                if r is not None and r[0] == "exc" and sess.conn.connection_state.name == "CONNECTED":
+                    base["handlers_post_cancel"] = handler_snapshot(sess.conn)
+                    base["timers_post_cancel"] = len(env.loop.armed_timers())
+
+            env.loop.sim_at(t0 + (o1["cancel_at"] + 2) * G, after_cancel)
 
     s.start(then)
     env.loop.horizon = START + 2000
@@ -461,6 +473,11 @@ def run_case(case: dict) -> CaseResult:
     if base["handlers_after"] != base["handlers"]:
         diff = {k: (base["handlers"].get(k, 0), base["handlers_after"].get(k, 0)) for k in set(base["handlers"]) | set(base["handlers_after"]) if base["handlers"].get(k, 0) != base["handlers_after"].get(k, 0)}
         res.violations.append(V("c16:leftover-subscription", f"handler counts (before, after): {diff}"))
+    if "handlers_post_cancel" in base and M["ops"][case["ops"][0]["id"]]["status"] in ("cancelled",) and not res.violations:
+        if base["handlers_post_cancel"] != base["handlers"]:
+            res.violations.append(V("c16:leftover-subscription:right-after-cancel", f"handlers right after the cancelled {case['ops'][0]['kind']} ended: {base['handlers_post_cancel']} vs before {base['handlers']}"))
+        elif base["timers_post_cancel"] != base["timers"]:
+            res.violations.append(V("c16:leftover-timer:right-after-cancel", f"{base['timers_post_cancel']} timers armed right after the cancelled operation ended, {base['timers']} before it"))
     if base["timers_after"] != base["timers"]:
         res.violations.append(V("c16:leftover-timer", f"{base['timers_after']} timers armed after all operations ended, {base['timers']} before"))
     # ---- classification
@@ -648,6 +665,12 @@ def enumerated(tier):
             o = {"id": "op0", "kind": kind, "addr": A, "handle": 1, "t": 2, "timeout": 2, "dtimeout": 2, "flavour": "v1", "address_type": 1, "response": True, "end": "stop", "cancel_at": ct}
             later = [{"t": 61, "msgs": [{"k": "data", "addr": A, "handle": 1, "data": "aa"}, {"k": "conn", "addr": A, "connected": False, "mtu": 0, "error": 1}]}]
             yield {"noise": False, "ops": [o], "chunks": [{"t": 21, "msgs": [ans]}] + later}
+    # a connect that has timed out and is now waiting for the clean-up disconnect to be confirmed: the caller gives up
+    for fl in ("v1", "v3cache"):
+        for ct in (259, 300, 500, 513):
+            o = {"id": "op0", "kind": "connect", "addr": A, "t": 2, "timeout": 2, "dtimeout": 2, "flavour": fl, "address_type": 1 if fl == "v1" else None, "cancel_at": ct}
+            yield {"noise": False, "ops": [o], "chunks": []}
+            yield {"noise": False, "ops": [o], "chunks": [{"t": ct + 20, "msgs": [{"k": "conn", "addr": A, "connected": False, "mtu": 0, "error": 0}]}]}
     # the function a finished connect handed back is called, and called again, while exactly one other operation
     # listens on the same message types
     for noise in (False, True):
